@@ -96,9 +96,16 @@ def _calibrate(ins):
     return [np.asarray(a, float).tolist() for a in ins.calibrate(sp)]
 
 
+def _kind_of(ins):
+    from cherab.tools.spectroscopy import CzernyTurnerSpectrometer, Polychromator
+    return "czerny" if isinstance(ins, CzernyTurnerSpectrometer) else ("polychromator" if isinstance(ins, Polychromator) else "spectrometer")
+
+
 def _get(ins, g):
     if g == "calibrate":
         return _calibrate(ins)
+    if g == "all":
+        return readout(_kind_of(ins), ins)
     if g == "spectral":
         return ins.min_wavelength, ins.max_wavelength, ins.spectral_bins
     if g == "classes":
